@@ -21,6 +21,7 @@ pub const MAX_SEEDS: &[&str] = &[
     "3Q4/1Q4Q1/4Q3/2Q4R/Q4Q2/3Q4/NR4Q1/kN1BB1K1 w - - 0 1",
     "1Q3Q2/4Q3/2Q4Q/Q4Q2/3Q4/1Q4Q1/5Q2/k2Q2K1 w - - 0 1",
     "Q1Q5/3Q2Q1/1Q6/4Q2Q/2Q5/Q4Q2/3Q2pp/1K2Q1k1 w - - 0 1",
+    "1Q4Qq/4Q3/Q1Q4Q/Q4Q2/q2Q4/KQ4Q1/bp2Q3/kBQ4Q w - - 0 1",
 ];
 
 fn count_all(b: &Board) -> [usize; 5] {
@@ -62,7 +63,7 @@ fn count_check(case: &Value, stats: &mut Stats) -> CheckResult {
 
 /// Directed maximisation (simulated annealing with restarts) of the semilegal move count.
 fn maximise_driver(ctx: &RunCtx, stats: &mut Stats, rep: &mut Reporter) {
-    let steps: u64 = if ctx.tier == Tier::Quick { 120_000 } else { 6_000_000 };
+    let steps: u64 = if ctx.tier == Tier::Quick { 1_500_000 } else { 40_000_000 };
     let seed = ctx.seed;
     let results = std::sync::Mutex::new(Vec::new());
     par_chunks(16, stats, rep, |range, st, fails| {
@@ -347,7 +348,7 @@ pub fn property() -> Property {
             },
             SubCheck {
                 name: "exercise_all_queries",
-                driver: Driver::Generated { gen: gen_heavy_case, genome_len: 192, quick: 60_000, thorough: 3_000_000 },
+                driver: Driver::Generated { gen: gen_heavy_case, genome_len: 192, quick: 300_000, thorough: 6_000_000 },
                 check: exercise_check,
                 configs: Configs::Both,
                 required: &["moves>=150", "in_check", "ep_mark", "castling_right"],
